@@ -47,7 +47,11 @@ VBoundary(x) == LET need == SumItems(x.items, 1, x.nb, <<0, 0>>) IN
   \o FailIf(~PairGt(need, IntMaxPair) /\ x.rc = 0 /\ (~x.nonneg \/ <<x.reqhi, x.reqlo>> # need), "C17", "reported size is not the worst-case size")
   \o FailIf(~PairGt(need, IntMaxPair) /\ x.rc # 0, "C17", "a size that fits INT_MAX was refused")
 
-V(x) == CASE x.e = "ComposeReqBoundary" -> VBoundary(x) [] x.e = "ComposeReq" -> VComposeReq(x) [] x.e = "Compose" -> VCompose(x) [] x.e = "ComposeMalloc" -> VComposeMalloc(x)
+\* the allocating variant needs the figure plus one for the terminator: a figure of INT_MAX or more is refused, nothing is handed out
+VBoundaryMalloc(x) == LET need == SumItems(x.items, 1, x.nb, <<0, 0>>) IN
+     FailIf((PairGt(need, IntMaxPair) \/ need = IntMaxPair) /\ (x.rc = 0 \/ ~x.untouched), "C17", "the allocating variant accepted a list whose size plus terminator exceeds INT_MAX (or handed out a string with its refusal)")
+
+V(x) == CASE x.e = "ComposeReqBoundary" -> VBoundary(x) [] x.e = "ComposeMallocBoundary" -> VBoundaryMalloc(x) [] x.e = "ComposeReq" -> VComposeReq(x) [] x.e = "Compose" -> VCompose(x) [] x.e = "ComposeMalloc" -> VComposeMalloc(x)
           [] x.e = "Dissect" -> VDissect(x) [] x.e = "ComposeReqGiant" -> VGiant(x) [] x.e = "ComposeMallocGiant" -> VGiantMalloc(x) [] OTHER -> Fail("C17", "unknown event")
 TNext == TStep(V)
 =============================================================================
